@@ -27,13 +27,16 @@ META = {
     "ready": True,
     "category": "model_checking",
     "technique": "TLA+ reference model of save_model/load_model (ModelCacheRT.tla) checked by TLC for every program of a bounded family (oracle mode); every program rendered to Modelica and run through transfer_model (cache; codegen on a subset), loaded model compared with the fresh compile",
-    "text": "TLC enumerates the program family (quick 192, thorough 4068 programs: 3 representation kinds for each of 4 attributes of a state and of an alias partner, 3 alias relations, 6 delay-duration dependency patterns, 4 option sets, typed variables, string parameter, output), checks RoundTrip and NoMXPickled on the abstract Save/Load and prints each program with the predicted dependency classification; each program is compiled, cached and reloaded by the real transfer_model and the CachedModel is compared with the fresh Model on every observable the property names; codegen (shared libraries) is exercised on one program per feature class.",
+    "text": "TLC enumerates the program family (quick 240, thorough 4644 programs: 3 representation kinds for each of 4 attributes of a state and of an alias partner, 3 alias relations, 6 delay-duration dependency patterns, 6 option sets incl. two that differ only in the value of a non-boolean option, typed variables, string parameter, output), checks RoundTrip and NoMXPickled on the abstract Save/Load and prints each program with the predicted dependency classification; each program is compiled, cached and reloaded by the real transfer_model and the CachedModel is compared with the fresh Model on every observable the property names; a third call under the sibling option set must recompile (SwitchedIsFresh); codegen (shared libraries) is exercised on one program per feature class.",
     "note": "Trusted: TLC, the renderer (features -> Modelica text, no expected values), vf/mc_common.project/compare. Attribute values are compared at 3 integer parameter vectors and functions at 3 integer points (no floating-point accuracy claims). Not in the family: attributes depending on constants without replace_constant_values (the metadata function cannot be built - a Model limitation, not a cache one), array-valued parameter-dependent attributes, replace_parameter_values together with parameter-dependent delay durations.",
     "design_ref": "DESIGN.md section 6, C19",
 }
 
 OPTS = {"base": {}, "aliases": {"detect_aliases": True}, "rcv": {"replace_constant_values": True},
-        "ev": {"expand_vectors": True}}
+        "ev": {"expand_vectors": True},
+        # two option sets that differ only in the VALUE of a non-boolean option
+        "eva": {"expand_mx": True, "eliminable_variable_expression": r"_a\w*"},
+        "evb": {"expand_mx": True, "eliminable_variable_expression": r"_b\w*"}}
 ATTRS = ["start", "min", "max", "nominal"]
 LIT = {"start": "1", "min": "-4", "max": "3", "nominal": "2"}
 PDEP = {"start": "p", "min": "-p", "max": "2 * p", "nominal": "p + 1"}
@@ -69,7 +72,7 @@ def render(pr):
     L += ["  Real y%s;" % _mods([pr["yk"]] * 3, ATTRS[1:])]
     if pr["typed"]:
         L += ["  Integer k;", "  Boolean f;"]
-    L += ["  Real v[2];"]
+    L += ["  Real v[2];", "  Real _a1;", "  Real _b1;"]
     if pr["out"]:
         L += ["  output Real o;"]
     for i in range(len(durs)):
@@ -78,7 +81,7 @@ def render(pr):
     L += ["  y = %s;" % {"none": "2 * x + 1", "pos": "x", "neg": "-x"}[pr["alias"]]]
     if pr["typed"]:
         L += ["  k = 2 * n;", "  f = not bb;"]
-    L += ["  v[1] = x + 1;", "  v[2] = 2 * x;"]
+    L += ["  v[1] = x + 1;", "  v[2] = 2 * x;", "  _a1 = 2 * x;", "  _b1 = 3 * x;"]
     if pr["out"]:
         L += ["  o = x + 3 * y;"]
     for i, d in enumerate(durs):
@@ -182,6 +185,31 @@ def run_program(job):
                     real = [sorted(syms[i] for i in deps) for deps in db["__delay_duration_dependent"]]
                     if real != want:
                         drift["duration-deps"] = drift.get("duration-deps", 0) + 1
+            # third call: the sibling option set (differs only in the value of a non-boolean option).
+            # The cache was made for other options: the result must be the compile under the NEW options.
+            sib = job.get("sibling")
+            if sib and sib != pr["opt"]:
+                opts2 = dict(OPTS[sib])
+                opts2[mode] = True
+                try:
+                    m3 = a.transfer_model(folder, "P", dict(opts2))
+                    o3 = a._merge_default_options(dict(opts2))
+                    if o3["cache"]:
+                        o3["expand_mx"] = True
+                    ref3 = mc.project(a._compile_model(folder, "P", o3))
+                    bad3, _ = mc.compare(ref3, mc.project(m3))
+                    if bad3:
+                        recs.append({"observable": "switched-options:" + "+".join(sorted({b[0] for b in bad3})),
+                                     "tags": sorted([mode, "opt:%s->%s" % (pr["opt"], sib)]), "exception_type": None,
+                                     "detail": "[%s] after caching under %s, transfer_model under %s returned a %s that differs from a fresh compile: %s" % (
+                                         feat, pr["opt"], sib, type(m3).__name__, "; ".join(b[1] for b in bad3[:2]))[:800]})
+                    del m3
+                except MachineryError:
+                    raise
+                except Exception as e:
+                    r = exc_record(e)
+                    r.update(observable="switched-options:exception", tags=sorted([mode, "opt:%s->%s" % (pr["opt"], sib)]))
+                    recs.append(r)
             del fresh, cached
             gc.collect()
     finally:
@@ -198,7 +226,7 @@ def _tlc(job):
 def run(ctx):
     thorough = ctx.tier == "thorough"
     fam = ["attrs_thorough", "delays_thorough"] if thorough else ["attrs_quick", "delays_quick"]
-    muts = ["mut_swap", "mut_outputs", "mut_durdeps"]
+    muts = ["mut_swap", "mut_outputs", "mut_durdeps", "mut_truthy"]
     with ThreadPoolExecutor(4) as ex:
         results = dict(ex.map(_tlc, fam + muts))
     programs = []
@@ -211,8 +239,9 @@ def run(ctx):
     for c in muts:
         r = results[c]
         ctx.add_tlc(r, "mutated Save/Load (%s): RoundTrip must fail" % c)
-        if "RoundTrip" not in r.violated:
-            raise MachineryError("mutated spec %s satisfies RoundTrip: the invariant is vacuous" % c)
+        want = "SwitchedIsFresh" if c == "mut_truthy" else "RoundTrip"
+        if want not in r.violated:
+            raise MachineryError("mutated spec %s satisfies %s: the invariant is vacuous" % (c, want))
     if not programs:
         raise MachineryError("TLC printed no program")
     # codegen on one program per feature class (thorough: ~25, quick: 3)
@@ -224,7 +253,8 @@ def run(ctx):
         if klass not in seen and (thorough or len(seen) < 3) and len(seen) < 28:
             seen.add(klass)
             modes = ["cache", "codegen"]
-        jobs.append({"prog": pg["prog"], "tags": pg["tags"], "expect": pg["expect"], "modes": modes})
+        jobs.append({"prog": pg["prog"], "tags": pg["tags"], "expect": pg["expect"], "modes": modes,
+                     "sibling": pg.get("sibling")})
     jobs.sort(key=lambda j: -len(j["modes"]))
     scratch = tempfile.mkdtemp(prefix="vfc19s_")
     os.environ["VF_MC_SCRATCH"] = scratch
@@ -245,7 +275,7 @@ def run(ctx):
         for kx, v in out["drift"].items():
             ctx.note_drift(kx, v)
         for rec in out["records"]:
-            ctx.violation(rec, {"prog": job["prog"], "tags": job["tags"], "expect": job["expect"],
+            ctx.violation(rec, {"prog": job["prog"], "tags": job["tags"], "expect": job["expect"], "sibling": job.get("sibling"),
                                 "modes": [m for m in job["modes"] if m in rec["tags"]] or job["modes"]})
     if failed:
         raise MachineryError("programs of the family do not compile even without the cache (calibrate the family): %s" % json.dumps(failed)[:1500])
